@@ -230,6 +230,19 @@ func BuildTx(kr *Keyring, s TxSpec, prior Prior) (f TxFacts) {
 			tx.Signature.Signature = tx.Signature.Signature[:len(tx.Signature.Signature)-1]
 		}
 		honest = false
+	case s.Mut == "sflip":
+		// the twin (R, N-S) of a secp256k1 signature: the same signer's approval in other bytes (for other key
+		// types this is just a damaged signature)
+		tx.Signature.Signature = flipS(tx.Signature.Signature)
+		honest = false
+	case s.Mut == "nomsg":
+		// well-formed amino for a transaction without a message
+		tx.Msg = nil
+		honest = false
+	case s.Mut == "nopubstake":
+		// a stake message that names no key at all (fails basic validation; GetSigner has nothing to derive from)
+		tx.Msg = posTypes.MsgStake{Value: sdk.NewInt(2000000)}
+		honest = false
 	case s.Mut == "pubkey":
 		// offer somebody else's key for a signature made by the signer
 		tx.Signature.PublicKey = kr.Get(s.Acct + 1000).Pub
@@ -249,6 +262,26 @@ func BuildTx(kr *Keyring, s TxSpec, prior Prior) (f TxFacts) {
 	f.Bytes = bz
 	f.Hash = hex.EncodeToString(tmtypes.Tx(bz).Hash())
 	return
+}
+
+var secpN, _ = new(big.Int).SetString("FFFFFFFFFFFFFFFFFFFFFFFFFFFFFFFEBAAEDCE6AF48A03BBFD25E8CD0364141", 16)
+
+func flipS(sig []byte) []byte {
+	out := append([]byte{}, sig...)
+	if len(out) != 64 {
+		if len(out) > 0 {
+			out[len(out)-1] ^= 1
+		}
+		return out
+	}
+	sv := new(big.Int).SetBytes(out[32:])
+	sv.Sub(secpN, sv)
+	b := sv.Bytes()
+	for i := 32; i < 64; i++ {
+		out[i] = 0
+	}
+	copy(out[64-len(b):], b)
+	return out
 }
 
 func mutateMsg(kr *Keyring, s TxSpec, msg sdk.Msg) sdk.Msg {
